@@ -91,8 +91,8 @@ def cases(tier, rng):
         allows = [[rng.choice(names)] if rng.chance(3, 4) else [] for _e in range(rng.range(2, 3))]
         reqs = list(dict.fromkeys([rng.choice(names) for _ in range(2)] + [variants(rng, rng.choice(names))]))[:3]
         cs.append(mkmulti("c03http", names, allows, reqs))
-    for kind in ("socket", "packet", "dns", "stdio"):
-        for _ in range(150 if thorough else 25):
+    for kind in ("socket", "packet", "dns", "stdio", "cfg-socket", "cfg-packet", "cfg-dns", "cfg-stdio"):
+        for _ in range(150 if thorough else (25 if not kind.startswith("cfg-") else 12)):
             names, allow = gen(rng)
             cs.append(mkstart(kind, names, allow))
     return cs
